@@ -23,6 +23,16 @@ History tokens (no blanks inside a token, optional `@n` suffix = opstamp the rea
                                   after ONE merge of those committed segments, when the log holds one
                                   delete stamped with the commit opstamp B (advance_deletes with its
                                   delete_opstamp early return; catch-up guard as extracted)
+  `C02 substeps <cut> <schedule> <tokA> <tokB> tok…` -> `pub=<ids>;lazy=<ids>;ret=<a>,<b>` (or `disabled`): the
+                                  state machine with ONE worker, after the atomic prior calls `tok…`,
+                                  the two calls A and B run as sub-steps (`Event.stamp` / `Event.publish`)
+                                  in schedule 0 `s1 p1 s2 p2`, 1 `s1 s2 p1 p2`, 2 `s1 s2 p2 p1`, then a
+                                  commit; with cut = 1 the worker closes its segment after every batch
+                                  (what `tantivy::verif::set_segment_cut_docs(1)` makes the real worker
+                                  do); `pub`: the worker takes every batch as soon as it is sent, `lazy`:
+                                  it takes the batches of A and B only when the commit waits for it
+                                  (the harness does not control the worker thread: the real outcome
+                                  must be one of the two)
   `C02 clean tok…`             -> `clean` or `dirty:<i,…>;firstdel:<i,…>` (indices of the calls that violate
                                   a hypothesis of `C02_commit_refines_replay_partial`)
 -/
@@ -215,6 +225,63 @@ def implRun (sc : Sched) : List (Op Nat × Option Nat) → Nat → List Nat → 
       | none => .error s!"disabled:{i}"
       | some (s', ret) => implRun { sc with st := s' } rest (i + 1) (ret :: rets)
 
+/-! ### the forced producer schedules (one worker, deterministic) -/
+
+def fire1 (s : WState Nat) (e : Event Nat) : WState Nat :=
+  match step s e with
+  | some (s', _) => s'
+  | none => s
+
+/-- the worker takes every batch sent so far; with `cut` it closes its segment after each batch -/
+def pump (cut : Bool) : Nat → WState Nat → WState Nat
+  | 0, s => s
+  | fuel + 1, s =>
+    if s.channel.isEmpty then s else
+    let s1 := fire1 s (.recv 0)
+    pump cut fuel (if cut then fire1 (fire1 s1 (.cut 0)) .register else s1)
+
+def registerAll : Nat → WState Nat → WState Nat
+  | 0, s => s
+  | fuel + 1, s => if s.inflight.isEmpty then s else registerAll fuel (fire1 s .register)
+
+/-- what `prepare_commit` waits for -/
+def settle (cut : Bool) (s : WState Nat) : WState Nat :=
+  registerAll 1000 (fire1 (pump cut 1000 s) (.cut 0))
+
+/-- an atomic call followed by the worker -/
+def atomicCall (cut : Bool) (s : WState Nat) (op : Op Nat) : Option (WState Nat × Nat) :=
+  let s := match op with
+    | .commit _ | .prepare => settle cut s
+    | _ => s
+  (step s (opToEvent op)).map (fun p => (pump cut 1000 p.1, p.2))
+
+def substepsRun (cut eager : Bool) (schedule : Nat) (a b : Op Nat) (prior : List (Op Nat)) : Option (WState Nat × Nat × Nat) := do
+  let s ← prior.foldlM (fun s op => (atomicCall cut s op).map (·.1)) (WState.init 1)
+  let pub (s : WState Nat) (k : Nat) : Option (WState Nat) :=
+    (step s (.publish k)).map (fun p => if eager then pump cut 1000 p.1 else p.1)
+  let (s, ra, rb) ←
+    match schedule with
+    | 0 => do
+      let (s, ra) ← step s (.stamp a)
+      let s ← pub s 0
+      let (s, rb) ← step s (.stamp b)
+      let s ← pub s 0
+      pure (s, ra, rb)
+    | 1 => do
+      let (s, ra) ← step s (.stamp a)
+      let (s, rb) ← step s (.stamp b)
+      let s ← pub s 0
+      let s ← pub s 0
+      pure (s, ra, rb)
+    | _ => do
+      let (s, ra) ← step s (.stamp a)
+      let (s, rb) ← step s (.stamp b)
+      let s ← pub s 1
+      let s ← pub s 0
+      pure (s, ra, rb)
+  let (s, _) ← atomicCall cut s (.commit none)
+  pure (s, ra, rb)
+
 /-- `<delete_opstamp|->:<alive ids>` -/
 def parseCornerSeg (i : Nat) (t : String) : Option (Seg Nat) :=
   match t.splitOn ":" with
@@ -239,6 +306,14 @@ def handle : List String → String
       | some (docs, cur) => s!"pub={showNatList (sortNat docs)};cursor={cur}"
       | none => "pub=-;cursor=-"
     | _, _, _ => "bad-op"
+  | "substeps" :: cut :: schedule :: ta :: tb :: toks =>
+    match cut.toNat?, schedule.toNat?, parseTok ta, parseTok tb, toks.mapM parseTok with
+    | some cut, some schedule, some (a, _), some (b, _), some prior =>
+      match substepsRun (cut != 0) true schedule a b (prior.map (·.1)), substepsRun (cut != 0) false schedule a b (prior.map (·.1)) with
+      | some (s, ra, rb), some (s', _, _) =>
+        s!"pub={showNatList (sortNat (published s))};lazy={showNatList (sortNat (published s'))};ret={ra},{rb}"
+      | _, _ => "disabled"
+    | _, _, _, _, _ => "bad-op"
   | "replay" :: toks =>
     match toks.mapM parseTok with
     | none => "bad-op"
